@@ -2,6 +2,7 @@ import StepupModel.K.Scheduler
 import StepupModel.Lemmas.K
 import StepupModel.Lemmas.MetaAfterW
 import StepupModel.Lemmas.MetaSafeReach
+import StepupModel.Lemmas.Discipline
 /-!
 # C10  Dispatch is exact: nothing ineligible starts, nothing eligible is left
 
@@ -284,10 +285,45 @@ theorem min_depth_resolution_is_wrong :
   obtain ⟨s2, h2, hc, _⟩ := defectWitness_max
   exact ⟨⟨s1, h1, hn, hf⟩, ⟨s2, h2, hc⟩⟩
 
-/-! The flag discipline `CacheInvAfterW` itself is NOT a theorem over all histories: it is what the
-defect F20 violated.  It is evaluated (a) on the model state after every request of the generated
-histories (`k cacheinv` of the driver runs `cacheInvAfterWB`, proved equivalent to it), and (b) on
-the real database by the cache oracle (`koracles.cache_invariants`). -/
+/-! ## The flag discipline is an invariant of every history with constant targets -/
+
+open StepupModel.K.MetaAfter StepupModel.K.Discipline in
+/-- **The cached `_implied_need` / `_tail_time` agree with their definition whenever a decision is
+taken, after any history of graph changes.**  For every history of accepted and rejected requests
+from the empty workflow that runs under the target sets of `cfg` (`HistOK'`: additionally `amend`
+is issued for an existing step, `reset_for_rerun` for a step, and a raw `detach` of an output file
+is not issued: the director never does), the flag discipline holds in the reached database, hence
+`_update_meta_after` terminates there, leaves every attached step with its local equation
+satisfied (whose unique solution is the definition), clears every flag and writes nothing else.
+This is the invariant that the repaired defect F20 violated: every one of the 24 request kinds is
+shown to flag what it may invalidate (`Lemmas/Discipline*.lean`). -/
+theorem cached_need_agrees_after_every_history (cfg : KConfig) (h : List (KConfig × Req))
+    (hh : HistOK' cfg KState.init h) :
+    ∃ s', (KState.init.run h).updateMetaAfter cfg = .ok s' ∧ AfterConsistent s' cfg ∧
+      (∀ n ∈ s'.nodes, n.key.kind = .step → n.checkAfter = false) ∧ AfterFrame (KState.init.run h) s' :=
+  reachable_updateMetaAfter_correct' cfg h hh
+
+open StepupModel.K.MetaAfter StepupModel.K.Discipline in
+/-- A new director with other targets: `reconcile_targets` carries the discipline from the old
+target sets to the new ones (it flags every step whose cached TARGET elevation may be stale and
+every producer of a new target). -/
+theorem reconcile_carries_discipline_to_new_targets (cfgO cfgN : KConfig) (s : KState) (res : KState × String)
+    (hp : TI cfgO s) (h : s.exec cfgN .reconcile = .ok res) : TI cfgN res.1 :=
+  exec_reconcile_retarget cfgO cfgN s res hp h
+
+open StepupModel.K.MetaAfter StepupModel.K.Discipline in
+/-- The side condition on `detach` is needed: detaching the output FILE of a step (a request the
+director never issues; `Node.detach` is only called on steps, trees and static files) leaves the
+producer with a stale TARGET elevation and no flag. -/
+theorem raw_detach_of_an_output_file_negation : Disc cxCfg cxState ∧ Struct cxState ∧
+    ¬ FileDetachOK cxState (fileKey "o") ∧
+    ∃ s', cxState.detach (fileKey "o") = .ok s' ∧ ¬ CacheInvAfterW s' cxCfg :=
+  detach_output_file_breaks_discipline
+
+/-! The discipline of `_update_meta_safe` (`CacheInvSafeW`) is not yet a theorem over all histories;
+both disciplines are also sampled: on the model state after every request of the generated
+histories (`k cacheinv` of the driver runs the executable forms, proved equivalent), and on the
+real database by the cache oracle (`koracles.cache_invariants`). -/
 
 /-! Non-vacuity -/
 example : dispatchSpec (.pending, true, false, false, false, .default, true) = true := by decide
